@@ -238,3 +238,28 @@ Theorem C01_traverse_example :
     Ok (mkTr 9 [(9, 0); (8, 1); (7, 2)] (mkDfs [] [(9, []); (8, [9]); (7, [8])] [] [(9, [8]); (8, [7])] [] 0)).
 Proof. exact traverse_example. Qed.
 Print Assumptions C01_traverse_example.
+
+(* flattening the DFS tree: the token list (atoms, bonds, parentheses) of the renumbered traversal is the renamed list *)
+Theorem C01_smiles_invariant_discrete_partial_flatten : forall (s : Z -> Z), (forall x y, s x = s y -> x = y) ->
+  forall (g : mol) (t : traversal), flatten (ren_mol s g) (ren_traversal s t) = ren_toks s (flatten g t).
+Proof. exact flatten_ren. Qed.
+Print Assumptions C01_smiles_invariant_discrete_partial_flatten.
+
+(* start atom + BFS + DFS + flattening of one component: same branch structure, atoms written in the image order.
+   Missing for the full statement: closure numbers, neighbour lists for stereo, atom / bond tokens, stereo marks, several
+   components in sequence, and renumberings that also change the insertion order *)
+Theorem C01_smiles_invariant_discrete_partial_component_tokens : forall (g : mol) (s w w' tb tb' : Z -> Z) (o : opts),
+  wf_mol g = true -> (forall x y, s x = s y -> x = y) -> inj_on (ids g) w -> (forall n, In n (ids g) -> w' (s n) = w n) ->
+  forall st st' : wstate, incl (ws_atoms st) (ids g) -> Permutation (map s (ws_atoms st)) (ws_atoms st') ->
+  ws_seen st' = ren_labels s (ws_seen st) -> ws_cycle st' = ws_cycle st ->
+  component_tokens (ren_mol s g) w' tb' o st' = ren_toks s (component_tokens g w tb o st) /\
+  (forall l, tok_atoms (map (ren_tok s) l) = map s (tok_atoms l)).
+Proof. exact component_tokens_ren_order. Qed.
+Print Assumptions C01_smiles_invariant_discrete_partial_component_tokens.
+
+Theorem C01_component_tokens_example :
+  component_tokens ex_g (lbl exw_l) (fun n => n) default_opts exw_st = Ok [TAtom 1; TBond 1 2; TAtom 2; TBond 2 3; TAtom 3] /\
+  component_tokens (ren_mol ex_s ex_g) (lbl (ren_labels ex_s exw_l)) (fun n => - n) default_opts exw_st' =
+    Ok [TAtom 9; TBond 9 8; TAtom 8; TBond 8 7; TAtom 7].
+Proof. exact component_tokens_example. Qed.
+Print Assumptions C01_component_tokens_example.
